@@ -21,7 +21,10 @@ def idx(e, i): return {"k": "idx", "e": e, "i": i}
 def mem(e, p): return {"k": "mem", "e": e, "p": p}
 def this(p): return {"k": "this", "p": p}
 def call(f, *args, y=""): return {"k": "call", "f": f, "args": list(args), "y": y}
-def mcall(e, m, *args): return {"k": "mcall", "e": e, "m": m, "args": list(args)}
+def mcall(e, m, *args, y=None):
+    r = {"k": "mcall", "e": e, "m": m, "args": list(args)}
+    if y: r["y"] = y
+    return r
 def new(cls, *args): return {"k": "new", "cls": cls, "args": list(args)}
 def asg(tgt, e): return {"k": "asg", "tgt": tgt, "e": e}
 
